@@ -29,7 +29,7 @@ def run(ctx, n, tag, rng, quotient=False):
 
 def check(ctx):
     ctx.cov["rule"] = (
-        "pairs of polyhedral contracts in six wirings (independent, cascade in both call orders, two-variable cascade, shared "
+        "pairs of polyhedral contracts in seven wirings (independent, cascade in both call orders, one-sided producer with several consumer assumptions, two-variable cascade, shared "
         "inputs, feedback), dyadic data with power-of-two coefficients on connected variables, all vars_to_keep subsets sampled, "
         "simplify on/off, tactic orders: default, each singleton, permutations; real PolyhedralIoContract.compose_tactics with "
         "linprog recorded and replayed into the translated algebra instantiated with the polyhedral model (result contract at "
